@@ -298,6 +298,7 @@ theorem indexInv_setCreate (ret : Int) (maxSil : Nat) (now : Int) (s : Store) (p
       | none => exact hi
       | some p => exact indexInv_expireCore ret now s _ hi
 
+
 theorem indexInv_set (env : Env) (ret : Int) (maxSil : Nat) (now : Int) (s : Store) (inp : SilIn)
     (newId : String) (big : Bool) (r : SetOk) (hi : IndexInv s)
     (h : set env ret maxSil now s inp newId big = .ok r) : IndexInv r.store := by
